@@ -4,8 +4,9 @@ CONSTANTS
   Payloads = {"none", "text", "unknown", "unknownQuery", "version", "discoInfo", "discoInfoNode", "discoItems", "time", "ping", "vcard", "roster", "rosterEmpty", "archiveChat", "archiveList", "archivePref", "archiveRetrieve", "block", "unblock", "blocklist", "private", "mamFin", "mamQuery", "mucAdmin", "mucOwner", "register", "rpc", "rpcBad", "ibbOpen", "ibbData", "ibbClose", "bytestreams", "si", "siBadProfile", "uploadRequest", "uploadSlot", "jingle", "pubsub", "pubsubOwner", "bind", "session", "carbonsEnable", "extdisco", "pushEnable", "mixJoin", "bob", "errorOnly", "version+unknown", "unknown+version", "unknown+vcard", "unknown+si"}
   Froms = {"Empty", "OwnBare", "OwnFullSelf", "OwnFullOther", "Domain", "Contact", "ContactBare"}
   ExtSets = {"none", "default", "all", "allrev"}
-  IdKinds = {"fresh", "dup", "empty"}
+  IdKinds = {"fresh", "pending"}
+  Peers = {"OwnBare", "OwnFullSelf", "OwnFullOther", "Domain", "Contact", "ContactBare"}
   MaxHist = 99
-INVARIANTS TypeOK RequestAnswered ResponseNotAnswered NoReplyLoop
+INVARIANTS TypeOK RequestAnswered ResponseNotAnswered NoReplyLoop TaskOnlyByResponse
 VIEW View
 CHECK_DEADLOCK FALSE
